@@ -992,6 +992,15 @@ func genCase(r *rand.Rand) *Case {
 
 func run(m *mon.M) {
 	r := m.Rand("cases")
+	for i := 0; i < m.N(200, 3000); i++ {
+		pool := []string{"bearer:tok-A", "bearer:tok-B", "basic:alice:s3cr:et", "key:k-1", "none", "bearer:tok-C", "basic:bob:pw"}
+		rc := &Reassign{Kind: "default-auth-reassigned"}
+		for k := 0; k < 2+r.Intn(3); k++ {
+			rc.Steps = append(rc.Steps, pool[r.Intn(len(pool))])
+		}
+		m.Begin(rc)
+		runReassign(m, rc)
+	}
 	n := m.N(20000, 250000)
 	for i := 0; i < n; i++ {
 		c := genCase(r)
@@ -1011,6 +1020,11 @@ func run(m *mon.M) {
 }
 
 func replay(m *mon.M, raw json.RawMessage) {
+	var rc Reassign
+	if err := json.Unmarshal(raw, &rc); err == nil && rc.Kind == "default-auth-reassigned" {
+		runReassign(m, &rc)
+		return
+	}
 	var c Case
 	if err := json.Unmarshal(raw, &c); err != nil {
 		m.Violate("bad-replay-case", err.Error(), nil)
